@@ -52,6 +52,14 @@ func init() {
 		if strings.HasPrefix(o.ID, "E1.assertion.") || strings.HasPrefix(o.ID, "E8.assertion.") {
 			sharedObs["C05"] = append(sharedObs["C05"], o) // private_key_jwt client authentication is assertion verification
 		}
+		if o.ID == "E1.request-object.copy" {
+			sharedObs["C02"] = append(sharedObs["C02"], o) // the request-object verifier believes a payload only under a key of the requesting client (the "configured key set" of that verifier)
+		}
+	}
+	// "the authenticated client identity is then exactly that issuer": the guarantees of the client-identification helpers
+	// (owned by C05) are part of this property's verdict
+	for _, fn := range []string{"op.ClientJWTAuth", "op.ClientIDFromRequest"} {
+		guarAlso[fn] = append(guarAlso[fn], "C14")
 	}
 	register(&PropSpec{
 		ID: "C14",
